@@ -6,6 +6,8 @@ containers  Engine B: explicit-state BFS to fixpoint over a pool of live, aliase
 strings     Engine C: every argument tuple of the string* functions over a pool of short strings.
 regex       every ordered pair (s, t) of short punctuation strings: '^' + regexEscape(s) + '$' matches t iff s == t.
 url         every string of length <= 2 over ASCII + 6 non-ASCII characters: allowed output alphabet, reversible.
+callbacks   arraySort with comparators returning fractional / negative / huge / tiny numbers (only the sign counts);
+            arrayIndexOf / arrayLastIndexOf with a match function returning values of every truthiness class.
 fresh       short histories r1 = f(args); mutate r1 in place; r2 = f(same args) for every container-returning function:
             results are never shared between calls.
 """
@@ -1123,6 +1125,138 @@ def fam_fresh(arg):
 
 
 # ---------------------------------------------------------------------------------------------------------------
+# callbacks: what the library does with the RESULT of a script callback (comparator sign, predicate truthiness)
+# ---------------------------------------------------------------------------------------------------------------
+
+CB_PRELUDE = '''\
+function cmpDiff(va, vb):
+    return va - vb
+endfunction
+function cmpDiffRev(va, vb):
+    return vb - va
+endfunction
+function cmpBig(va, vb):
+    return (va - vb) * 1e+9
+endfunction
+function cmpTiny(va, vb):
+    return (va - vb) * 0.001
+endfunction
+function cmpSign(va, vb):
+    return systemCompare(va, vb)
+endfunction
+function itself(vv):
+    return vv
+endfunction
+'''
+# comparators: fractional, negative-fractional, huge and tiny results; the reference uses only the SIGN of the result
+CB_COMPARATORS = {
+    'cmpDiff': lambda a, b: a - b,
+    'cmpDiffRev': lambda a, b: b - a,
+    'cmpBig': lambda a, b: (a - b) * 1e+9,
+    'cmpTiny': lambda a, b: (a - b) * 0.001,
+    'cmpSign': rv.compare,
+}
+CB_SORT_ELEMENTS = [0.1, 0.25, 0.5, 3.1, 3.25, 3.5, -0.5, 1000000.0]      # pairwise differences on both sides of -1 and 1
+# predicate results of every truthiness class: the predicate `itself` returns the element
+CB_FIND_ELEMENTS = [('0', lambda: 0.0), ("''", lambda: ''), ('[]', list), ('{}', dict), ("'x'", lambda: 'x'), ('0.5', lambda: 0.5),
+                    ('null', lambda: None), ('false', lambda: False), ('true', lambda: True), ('[0]', lambda: [0.0])]
+CB_STARTS = [None, 0.0, 1.0]
+CB_MAXLEN = {'quick': (3, 3), 'thorough': (4, 4)}
+
+
+class CallbackRuntime:
+    def __init__(self):
+        self.bs = load_impl()
+        self.globals = {}
+        self.options = {'globals': self.globals}
+        self.bs.execute_script(self.bs.parse_script(CB_PRELUDE), self.options)
+        self.cache = {}
+
+    def run(self, text):
+        script = self.cache.get(text)
+        if script is None:
+            script = self.cache[text] = self.bs.parse_script(text)
+        self.globals.pop('rr', None)
+        self.bs.execute_script(script, self.options)
+        return self.globals.get('rr')
+
+
+_CRT = []
+
+
+def check_callbacks(case, acc):
+    if not _CRT:
+        _CRT.append(CallbackRuntime())
+    crt = _CRT[0]
+    if case['kind'] == 'sort':
+        arr = [CB_SORT_ELEMENTS[i] for i in case['idx']]
+        ref = list(arr)
+        crt.globals['ar'] = arr
+        out = rl.call('arraySort', [ref, CB_COMPARATORS[case['cmp']]])
+        got = crt.run(f"rr = arraySort(ar, {case['cmp']})")
+        acc.evals += 1
+        if got is not arr:
+            acc.violation(case, 'the array itself', got, 'arraySort with a comparator does not return the array it was given')
+        elif canon(arr) != canon(out.value):
+            acc.violation(dict(case, array=[CB_SORT_ELEMENTS[i] for i in case['idx']]), ref, arr,
+                          'arraySort does not order the array by the SIGN of the comparator result (fractional, huge or tiny results)')
+        return tuple(arr)
+    arr = [CB_FIND_ELEMENTS[i][1]() for i in case['idx']]
+    before = canon(arr)
+    crt.globals['ar'] = arr
+    start = case['start']
+    rargs = [arr, (lambda v: v)] + ([] if start is None else [start])
+    out = rl.call(case['fn'], rargs)
+    got = crt.run(f"rr = {case['fn']}(ar, itself{'' if start is None else ', ' + repr(float(start))})")
+    acc.evals += 1
+    if canon(got) != canon(out.value):
+        acc.violation(dict(case, array=[CB_FIND_ELEMENTS[i][0] for i in case['idx']]), out.value, got,
+                      'the match function result is not interpreted by BareScript truthiness (null, false, 0, \'\' and [] are false; everything else, {} included, is true)')
+    if canon(arr) != before:
+        acc.violation(case, 'array unchanged', arr, 'a search with a match function changed the array')
+    return (out.failed, out.value)
+
+
+def fam_callbacks(arg):
+    tier, kind, firsts = arg
+    acc = Acc('callbacks')
+    maxsort, maxfind = CB_MAXLEN[tier]
+    if kind == 'sort':
+        n_el = len(CB_SORT_ELEMENTS)
+        tuples = [()] if firsts and firsts[0] == 0 else []
+        for first in firsts:
+            for n in range(0, maxsort):
+                tuples.extend((first,) + rest for rest in itertools.product(range(n_el), repeat=n))
+        for idx in tuples:
+            for cmp_name in CB_COMPARATORS:
+                acc.cases += 1
+                res = check_callbacks({'kind': 'sort', 'idx': list(idx), 'cmp': cmp_name}, acc)
+                acc.outcome(res)
+                vals = [CB_SORT_ELEMENTS[i] for i in idx]
+                if any(abs(a - b) < 1 and a != b and (a > b) != (cmp_name == 'cmpDiffRev') for a, b in zip(vals, vals[1:])):
+                    acc.nontrivial += 1     # an adjacent pair is out of order by less than 1: truncating the result would hide it
+        if tuples:
+            acc.sample({'sort': [CB_SORT_ELEMENTS[i] for i in tuples[-1]], 'comparators': list(CB_COMPARATORS)})
+    else:
+        n_el = len(CB_FIND_ELEMENTS)
+        tuples = [()] if firsts and firsts[0] == 0 else []
+        for first in firsts:
+            for n in range(0, maxfind):
+                tuples.extend((first,) + rest for rest in itertools.product(range(n_el), repeat=n))
+        for idx in tuples:
+            for name in ('arrayIndexOf', 'arrayLastIndexOf'):
+                for start in CB_STARTS:
+                    acc.cases += 1
+                    res = check_callbacks({'kind': 'find', 'fn': name, 'idx': list(idx), 'start': start}, acc)
+                    acc.outcome((name, res))
+                    if res[1] is not UNSPECIFIED and res[1] != -1:
+                        acc.nontrivial += 1
+        if tuples:
+            acc.sample({'find_in': [CB_FIND_ELEMENTS[i][0] for i in tuples[-1]], 'predicate': 'itself(vv) returns vv'})
+    return acc.result()
+
+
+# ---------------------------------------------------------------------------------------------------------------
 
 def families(tier):
     b = BOUNDS[tier]
@@ -1159,10 +1293,17 @@ def families(tier):
                'r2 = f(same args), for the 8 container-returning functions of the property (stringSplit, arrayCopy, arraySlice, arrayNew, arrayNewSize, objectCopy, '
                'objectKeys, objectNew) and regexSplit/regexMatchAll/regexMatch; stringSplit over the 13 strings of length <= 2 over a,b,space x 13 separators',
                expected=sum(FRESH_SIZES.values()) * len(MUTATIONS)),
+        Family('callbacks', fam_callbacks,
+               [(tier, 'sort', [i]) for i in range(len(CB_SORT_ELEMENTS))] + [(tier, 'find', [i]) for i in range(len(CB_FIND_ELEMENTS))],
+               f'arraySort of every array of length <= {CB_MAXLEN[tier][0]} over {len(CB_SORT_ELEMENTS)} non-integral numbers x {len(CB_COMPARATORS)} comparators returning '
+               f'fractional / negative / huge / tiny / integer results; arrayIndexOf and arrayLastIndexOf of every array of length <= {CB_MAXLEN[tier][1]} over '
+               f'{len(CB_FIND_ELEMENTS)} values of every truthiness class with a match function that returns the element, start omitted / 0.0 / 1.0',
+               expected=sum(len(CB_SORT_ELEMENTS) ** n for n in range(CB_MAXLEN[tier][0] + 1)) * len(CB_COMPARATORS)
+               + sum(len(CB_FIND_ELEMENTS) ** n for n in range(CB_MAXLEN[tier][1] + 1)) * 2 * len(CB_STARTS)),
     ]
 
 
-_CHECKS = {'containers': check_containers, 'strings': check_strings, 'regex': check_regex, 'url': check_url, 'fresh': check_fresh}
+_CHECKS = {'containers': check_containers, 'strings': check_strings, 'regex': check_regex, 'url': check_url, 'fresh': check_fresh, 'callbacks': check_callbacks}
 
 
 def replay(family, case):
